@@ -334,11 +334,13 @@ def run(prog: Program, chk: Check):
         Y.decide(merged, fkey(pt, f"repeatable-key:{key}"), where(pt), f"repeatable key {key} is merged across files",
                  f"`{key}` may appear in message_defs of several files (it is exempt from duplicate detection) but yaml_dict['message_defs'].update() keeps only the last occurrence: the combined YAML loses the earlier reserved ids")
     yc = prog.func("pyrtma.compilers.yaml", "YAMLCompiler.generate")
-    opt = [n for n in walk_local(yc.node) if isinstance(n, (ast.Assign, ast.AnnAssign)) and isinstance(n.value, ast.Dict)
-           and any(isinstance(k, ast.Constant) and k.value == "IMPORT_COREDEFS" and isinstance(v, ast.Constant) and v.value is False for k, v in zip(n.value.keys, n.value.values))]
+    opt = [n for n in walk_local(yc.node) if isinstance(n, ast.Dict)
+           and any(isinstance(k, ast.Constant) and k.value == "IMPORT_COREDEFS" and isinstance(v, ast.Constant) and v.value is False for k, v in zip(n.keys, n.values))]
     Y.decide(bool(opt), fkey(yc, "IMPORT_COREDEFS-false"), where(yc), "combined output sets IMPORT_COREDEFS: false (core definitions are already inside)", "combined YAML does not force IMPORT_COREDEFS false: core definitions would be parsed twice")
-    lp = [n for n in walk_local(yc.node) if isinstance(n, ast.For) and norm(n.iter) == "self.parser.yaml_dict.items()"]
-    okl = len(lp) == 1 and not any(isinstance(s, (ast.Continue, ast.Break)) for s in walk_local(lp[0])) and any(is_method_call(c, "dump") for c in calls_in(yc.node))
+    from ..util import iterations as _its2
+
+    lp = [i_ for i_ in _its2(yc.node) if norm(i_.iter) == "self.parser.yaml_dict.items()"]
+    okl = len(lp) == 1 and not lp[0].conditions and (lp[0].is_comp or not any(isinstance(s, (ast.Continue, ast.Break)) for s in walk_local(lp[0].node))) and any(is_method_call(c, "dump") for c in calls_in(yc.node))
     Y.decide(okl, fkey(yc, "dumps-every-section"), where(yc), "every yaml_dict section is copied and dumped", "YAMLCompiler skips sections of yaml_dict")
     init = prog.func(PAR, "Parser.__init__")
     keys = None
